@@ -153,7 +153,16 @@ pub mod strext {
         if p.len() > 0 && has_prefix(s, p) { trim_start_str(s.skip(p.len() as int), p) } else { s } }
     pub open spec fn trim_end_str(s: Seq<char>, p: Seq<char>) -> Seq<char> decreases s.len() {
         if p.len() > 0 && has_suffix(s, p) { trim_end_str(s.take(s.len() - p.len()), p) } else { s } }
+    // replace: every character of the set / every (leftmost, non-overlapping) occurrence of the pattern gives way to `rep`
+    pub open spec fn replace_chars_spec(s: Seq<char>, set: Seq<char>, rep: Seq<char>) -> Seq<char> decreases s.len() {
+        if s.len() == 0 { s } else { (if set.contains(s[0]) { rep } else { seq![s[0]] }) + replace_chars_spec(s.skip(1), set, rep) } }
+    pub open spec fn replace_str_spec(s: Seq<char>, p: Seq<char>, rep: Seq<char>) -> Seq<char> decreases s.len() {
+        if s.len() == 0 || p.len() == 0 { s } else if has_prefix(s, p) { rep + replace_str_spec(s.skip(p.len() as int), p, rep) }
+        else { seq![s[0]] + replace_str_spec(s.skip(1), p, rep) } }
     pub trait StrExt {
+        fn replace_chars(&self, set: &[char], rep: &str) -> String;
+        fn replace_char(&self, c: char, rep: &str) -> String;
+        fn replace_str(&self, p: &str, rep: &str) -> String;
         fn trim_start_matches_char(&self, c: char) -> &str;
         fn trim_end_matches_char(&self, c: char) -> &str;
         fn trim_start_matches_str(&self, p: &str) -> &str;
@@ -164,6 +173,9 @@ pub mod strext {
         fn strip_suffix_char(&self, c: char) -> Option<&str>;
     }
     impl StrExt for str {
+        #[verifier::external_body] fn replace_chars(&self, set: &[char], rep: &str) -> (r: String) ensures r@ == replace_chars_spec(self@, set@, rep@) { self.replace(set, rep) }
+        #[verifier::external_body] fn replace_char(&self, c: char, rep: &str) -> (r: String) ensures r@ == replace_chars_spec(self@, seq![c], rep@) { self.replace(c, rep) }
+        #[verifier::external_body] fn replace_str(&self, p: &str, rep: &str) -> (r: String) ensures p@.len() > 0 ==> r@ == replace_str_spec(self@, p@, rep@) { self.replace(p, rep) }
         #[verifier::external_body] fn trim_start_matches_char(&self, c: char) -> (r: &str) ensures r@ == trim_start_char(self@, c) { self.trim_start_matches(c) }
         #[verifier::external_body] fn trim_end_matches_char(&self, c: char) -> (r: &str) ensures r@ == trim_end_char(self@, c) { self.trim_end_matches(c) }
         #[verifier::external_body] fn trim_start_matches_str(&self, p: &str) -> (r: &str) ensures r@ == trim_start_str(self@, p@) { self.trim_start_matches(p) }
